@@ -33,6 +33,8 @@ class ConvRef(Monitor):
         self.last_end_t = None
         self.same_instant_entries = False
         self.offgrid = False
+        self.entered_stalled = set()   # items that entered while the head was waiting at the exit
+        self.between_slots = False     # a stall began while a follower was between two slot positions
 
     # ---- reference dynamics
     def head_waiting(self):
@@ -78,9 +80,13 @@ class ConvRef(Monitor):
             if self.order:
                 last = self.order[-1]
                 if self.s[last] < self.tau - TOL:
-                    self.spacing_bad = (last, self.s[last])
+                    tk = w.toks[op[1]]
+                    prev = next(y for y in w.items if y.n == last)
+                    self.spacing_bad = (last, self.s[last], tk.grant_seq is not None and tk.grant_seq < prev.x.get("put_seq", -1))
                     if self.s[last] < TOL:
                         self.same_instant_entries = True
+            if self.head_waiting():
+                self.entered_stalled.add(x.n)
             self.s[x.n] = 0.0
             self.order.append(x.n)
             self.entered = x
@@ -92,6 +98,13 @@ class ConvRef(Monitor):
             if n in self.s:
                 del self.s[n]
                 self.order.remove(n)
+        hw = self.head_waiting()
+        if hw and not getattr(self, "_hw_prev", False):
+            for n in self.order[1:]:
+                fr = self.s[n] / self.tau
+                if abs(fr - round(fr)) > 1e-6:
+                    self.between_slots = True
+        self._hw_prev = hw
         if not events_now(w.env):
             if self.last_end_t is None or t1 > self.last_end_t + EPS:
                 self.stalled_prev_end = self.stalled_now_end
@@ -101,12 +114,11 @@ class ConvRef(Monitor):
                 self.ever_stalled = True
 
     def ref_state(self, w):
-        return (tuple((n, round(self.s[n], 6)) for n in self.order), self.ever_stalled, self.stalled_prev_end,
+        return (tuple((w.items[n].obj, round(self.s[n], 6), n in self.entered_stalled) for n in self.order), self.ever_stalled, self.between_slots, self.stalled_prev_end,
                 self.stalled_now_end, self.same_instant_entries, self.offgrid)
 
     def facets(self, w, **kw):
-        f = {"acc": self.acc, "conv": w.spec.kind, "after_stall": self.ever_stalled, "offgrid_entry": self.offgrid,
-             "same_instant_entries": self.same_instant_entries}
+        f = {"acc": self.acc, "conv": w.spec.kind}
         f.update(kw)
         return f
 
@@ -121,10 +133,13 @@ class C12(ConvRef):
         if w.held() > w.spec.cap:
             out.append(V("C12", "at-most-capacity", w, "%d items on a belt of capacity %d" % (w.held(), w.spec.cap), **self.facets(w)))
         if self.spacing_bad is not None:
-            last, s = self.spacing_bad
+            last, s, early_grant = self.spacing_bad
             out.append(V("C12", "entry-spacing", w,
-                         "i%d entered at %s while the previous item i%d had moved only %.6g of the required %.6g of belt travel"
-                         % (self.entered.n, w.now, last, s, self.tau), **self.facets(w, granted_before_put=True)))
+                         "i%d entered at %s while the previous item i%d had moved only %.6g of the required %.6g of belt travel (%s)"
+                         % (self.entered.n, w.now, last, s, self.tau,
+                            "its space reservation was granted before i%d entered" % last if early_grant else "reservation granted after that entry"),
+                         **self.facets(w, reservation_predates_previous_entry=early_grant, after_stall=self.ever_stalled,
+                                       prev_entered_during_stall=last in self.entered_stalled)))
         if op[0] == "get" and obs.get("item") is not None:
             x = obs["item"]
             older = [y for y in w.inside() if y.n < x.n]
@@ -169,7 +184,7 @@ class C13(ConvRef):
                 if g.side == "p":
                     out.append(V("C13", "no-admission-during-stall", w,
                                  "space request %d granted at %s while the head item waits unreserved at the exit of a non-accumulating belt"
-                                 % (g.idx, w.now), **self.facets(w)))
+                                 % (g.idx, w.now), **self.facets(w, others_on_belt=len(self.order) > 1)))
         if not events_now(w.env) and self.ever_stalled:
             pr = w.pub_ready() or []
             ids = {id(o) for o in pr}
@@ -181,7 +196,8 @@ class C13(ConvRef):
                                  "at the end of instant %s the reference has %r at progress %.6g of %s (%s), the conveyor %s it; progress of all items %s"
                                  % (w.now, x.obj, self.s[x.n], self.T, "at the exit" if ref else "still travelling",
                                     "offers" if real else "does not offer", [(n, round(self.s[n], 6)) for n in self.order]),
-                                 **self.facets(w, early=real and not ref)))
+                                 **self.facets(w, early=real and not ref, entered_during_stall=x.n in self.entered_stalled,
+                                               between_slots=self.between_slots)))
                     break
         return out
 
@@ -201,7 +217,9 @@ class C04Conv(ConvRef):
         if not events_now(w.env) and w.waiting("p") and self.can_admit(w):
             out.append(V("C04", "space-free-but-request-waiting", w,
                          "at the end of instant %s a space request waits although the belt has free capacity, the last item has moved %.6g >= %.6g and the belt is not stalled"
-                         % (w.now, self.s[self.order[-1]] if self.order else -1, self.tau), side="p", **self.facets(w)))
+                         % (w.now, self.s[self.order[-1]] if self.order else -1, self.tau), side="p",
+                         **self.facets(w, last_entered_during_stall=bool(self.order) and self.order[-1] in self.entered_stalled,
+                                       after_stall=self.ever_stalled)))
         return out
 
     def state(self, w):
